@@ -314,7 +314,7 @@ def run(ctx):
             start = rng.choice(STARTS); step = rng.choice(STEPS); n = rng.choice([1, 2, 3, 5, 10, 50, 500])
             coords = start + np.arange(n) * step
             if rng.random() < 0.6:
-                attr_step = step
+                attr_step = step if rng.random() < 0.8 else step / 2   # stale attribute after a decimation
         elif kind == "irregular":
             n = rng.randint(2, 12)
             coords = np.cumsum([rng.uniform(0.01, 3) for _ in range(n)]) + rng.uniform(0, 10)
@@ -377,6 +377,46 @@ def run(ctx):
                             ctx.violate_exc("index:raises", f"index:raises:{type(e).__name__}", e, spec={"kind": "index_sweep", "start": start, "step": step, "n": n, "value": v})
                             break
     ctx.exhaustive_subspaces.append("get_coord_index at every coordinate and every midpoint of create_range_dim axes: 4 starts x 11 steps x lengths " + str(sweep_n))
+
+    # ---- lookups on axes with a history: extended, cropped or adjusted arrays are ordinary inputs too
+    from soundevent.arrays import operations as AO
+
+    for _ in range(ctx.scale(150, 600)):
+        start = rng.choice([0.0, 0.5, 10.0]); step = rng.choice([1.0, 0.5, 0.1, 0.01]); n = rng.choice([5, 10, 40])
+        var = D.create_range_dim("time", start, start + (n + 0.5) * step, step=step)
+        arr = xr.DataArray(np.arange(len(var), dtype=float), dims=["time"], coords={"time": var})
+        hist = rng.choice(["extend", "extend_crop", "adjust", "crop", "extend_width"])
+        try:
+            if hist in ("extend", "extend_crop"):
+                arr2 = AO.extend_dim(arr, "time", start=start - rng.choice([2, 3.5]) * step if start >= 4 * step else None, stop=float(var.data[-1]) + rng.choice([2, 3.5]) * step)
+                if hist == "extend_crop":
+                    c2 = np.asarray(arr2.time.data)
+                    arr2 = AO.crop_dim(arr2, "time", start=float(c2[1]), stop=float(c2[-3]))
+            elif hist == "adjust":
+                arr2 = AO.adjust_dim_range(arr, "time", start=start - 2 * step if start >= 2 * step else None, stop=float(var.data[n // 2]))
+            elif hist == "crop":
+                arr2 = AO.crop_dim(arr, "time", start=float(var.data[1]), stop=float(var.data[-2]))
+            else:
+                arr2 = AO.adjust_dim_width(arr, "time", n + 5)
+        except Exception:
+            ctx.note("history_step_failed")
+            continue
+        c2 = np.asarray(arr2.time.data)
+        if len(c2) < 2:
+            continue
+        ctx.case(("index_after", hist), {"kind": "index_after", "start": start, "step": step, "n": n, "history": hist}, nontrivial=True)
+        for v in (float(c2[0]), float(c2[-1]), float(c2[0]) - 0.5 * step, float(c2[0]) - 1e-6, float(c2[-1]) + 0.5 * step, float(c2[-1]) + 3 * step,
+                  float(c2[len(c2) // 2]), float((c2[0] + c2[1]) / 2)):
+            for raise_error in (True, False):
+                inside = c2[0] <= v <= c2[-1]
+                ctx.mon("get_coord_index.exceptions")
+                try:
+                    D.get_coord_index(arr2, "time", v, raise_error=raise_error)
+                except KeyError as e:
+                    if inside or not raise_error:
+                        ctx.violate_exc("index:spurious_keyerror", "index:spurious_keyerror", e, spec={"kind": "index_after", "history": hist, "coords": _cspec(c2), "value": v})
+                except Exception as e:
+                    ctx.violate_exc("index:raises", f"index:raises:{type(e).__name__}", e, spec={"kind": "index_after", "history": hist, "coords": _cspec(c2), "value": v})
 
     # ---- set_value_at_pos
     for _ in range(ctx.scale(400, 3000)):
